@@ -18,6 +18,7 @@ from ..fields.datafield_base import DataFieldBase
 from ..grids.boundaries import set_default_bc
 from ..grids.boundaries.local import BCDataError
 from ..pdes.base import SDEBase
+from ..tools.cache import objects_equal
 from ..tools.docstrings import fill_in_docstring
 
 if TYPE_CHECKING:
@@ -515,9 +516,19 @@ class PDE(SDEBase):
         """
         # check the cache
         cache = self._cache.get(backend.name, {})
-        if state.attributes == cache.get("state_attributes", None):
+        # the data of constant fields can be compiled into the cached functions, so the
+        # cache is only valid if this data has not been modified in the meantime
+        consts_data = {
+            name: np.array(value.data)
+            for name, value in self.consts.items()
+            if isinstance(value, DataFieldBase)
+        }
+        if state.attributes == cache.get(
+            "state_attributes", None
+        ) and objects_equal(consts_data, cache.get("consts_data")):
             return cache  # this cache was already prepared
         cache = self._cache[backend.name] = {}  # clear cache, if there was any
+        cache["consts_data"] = consts_data
 
         # determine the dtype of the rhs
         if not np.iscomplexobj(state.data) and self.complex_valued:
